@@ -1,6 +1,7 @@
 """Scenario (history) generators for storesim.  A scenario = world + list of simulated processes, each a list of ops.
 All randomness comes from the random.Random given; the scenario that results is plain JSON and is the replay file."""
 import copy
+import random
 from . import abstract as A
 from . import gen
 from .. import values as V
@@ -22,6 +23,11 @@ class B:
         self.cids = 0
         self.models = {}
         self.chain_info = {}
+        # revisions of external resources run bodies read (what users force for): decided by a PRNG of its own, so that
+        # histories without them are the ones the main PRNG always produced
+        self.rr = random.Random('rev:' + V.digest(world))
+        self.revs = {}
+        self.use_rev = False
 
     def model(self, root, outer=None):
         k = (root, outer)
@@ -32,7 +38,23 @@ class B:
     def proc(self, hs=0, **kw):
         self.cur = dict(hs=hs, ops=[], **kw)
         self.procs.append(self.cur)
+        if self.revs:
+            self.op(op='rev', map=dict(self.revs))
         return self.cur
+
+    def bump(self, cid, names, p=0.5):
+        """the external resource read by (some of) these tasks changes: what is stored stays what it is until somebody forces"""
+        if not self.use_rev or self.rr.random() >= p:
+            return
+        insts = self.insts(cid)
+        hit = False
+        for n in names:
+            if self.rr.random() < 0.7:
+                s_ = insts[n].slug
+                self.revs[s_] = self.revs.get(s_, 0) + 1
+                hit = True
+        if hit:
+            self.op(op='rev', map=dict(self.revs))
 
     def op(self, **d):
         d['i'] = self.n
@@ -391,6 +413,7 @@ def gen_c01(r, knobs=None):
     b = B(world, r)
     nproc = r.randint(1, 4)
     swarm = {'force': r.random() < 0.5, 'runfault': r.random() < 0.4, 'multi': r.random() < 0.3}
+    b.use_rev = swarm['force'] and b.rr.random() < 0.4
     for pi in range(nproc):
         b.proc(hs=r.choice([0, 1, 2]))
         live = []
@@ -416,9 +439,11 @@ def gen_c01(r, knobs=None):
                 names = b.names(cid)
                 if r.random() < 0.5:
                     n = r.choice(names)
+                    b.bump(cid, [n], 0.5)
                     b.op(op='tforce', cid=cid, task=n, name=n, delete=r.random() < 0.3 and b.delete_ok(cid, [n], live))
                 else:
                     ns = r.sample(names, min(len(names), r.randint(1, 2)))
+                    b.bump(cid, ns, 0.5)
                     b.op(op='cforce', cid=cid, tasks=ns, names=ns, recompute=r.random() < 0.3, delete=r.random() < 0.3 and b.delete_ok(cid, ns, live))
             elif t < 0.95:
                 _inspect(b, r.choice(live), ['has_data', 'data_path', 'flags', 'tasks_df'])
@@ -487,6 +512,7 @@ def gen_c07(r, knobs=None):
     plain_roots = [i for i, rt in enumerate(world['roots']) if not rt.get('overrides') and
                    len({(it.slug, it.cfg) for it in b.model(i).values()}) == len(b.model(i))]
     name_mode = bool(plain_roots) and r.random() < 0.25
+    b.use_rev = not faulty and b.rr.random() < 0.5
     for pi in range(nproc):
         b.proc(hs=r.choice([0, 1]))
         root = r.randrange(len(world['roots']))
@@ -524,9 +550,11 @@ def gen_c07(r, knobs=None):
                     # a file-system error while the stored result is removed: force has to report it (or have removed everything)
                     b.op(op='tforce', cid=cid, task=n, name=n, delete=True, diskerr={'k': r.randint(0, 4), 'errno': r.choice(['EIO', 'EACCES', 'EBUSY'])})
                 else:
+                    b.bump(cid, [n], 0.6)
                     b.op(op='tforce', cid=cid, task=n, name=n, delete=dele)
             elif t < 0.45:
                 ns = b.pick_force_names(cid)
+                b.bump(cid, b.closure(cid, ns), 0.5)
                 if len(ns) >= 2 and r.random() < 0.4:
                     # the same, as two separate calls
                     b.op(op='cforce', cid=cid, tasks=ns[:1], names=ns[:1], recompute=False, delete=False)
@@ -552,6 +580,7 @@ def gen_c07(r, knobs=None):
                     b.op(op='armrun', slug=insts[r.choice(ups)].slug, kind=r.choice(RUN_FAULTS[:4]), at=0)
                     b.req(cid, n)
                     b.op(op='disarm')
+                b.bump(cid, [n], 0.1)      # nobody forced: the stored result keeps being served
                 b.req(cid, n)
             elif t < 0.92:
                 _inspect(b, cid, ['has_data', 'flags', 'flags', 'tasks_df'])
@@ -578,18 +607,29 @@ def gen_c06(r, knobs=None):
     world = gen.gen_world(r, kn)
     b = B(world, r)
     b.proc(hs=r.choice([0, 1, 2]))
+    b.use_rev = b.rr.random() < 0.5
     c0 = b.build(0, b.render(rich=False))
     names = b.names(c0)
     order = list(names)
     r.shuffle(order)
     for n in order:
         b.req(c0, n)
+    if b.use_rev and b.rr.random() < 0.5:
+        # the computation is repeated on purpose (something outside changed): what later chains load is what the last run returned
+        for n in b.rr.sample(order, b.rr.randint(1, min(2, len(order)))):
+            b.bump(c0, [n], 1.0)
+            if b.rr.random() < 0.5:
+                b.op(op='tforce', cid=c0, task=n, name=n, delete=False)
+                b.req(c0, n)
+            else:
+                b.op(op='cforce', cid=c0, tasks=[n], names=[n], recompute=True, delete=False)
     if r.random() < 0.3:
         # a second chain in the same process loads what the first one stored
         c1 = b.build(0, b.render(rich=False))
         for n in order[: r.randint(1, len(order))]:
             b.req(c1, n)
             if r.random() < 0.3:
+                b.bump(c1, [n], 0.6)
                 b.op(op='tforce', cid=c1, task=n, name=n, delete=False)
                 b.req(c1, n)
                 c2 = b.build(0, b.render(rich=False))
@@ -642,6 +682,7 @@ def gen_c13(r, knobs=None):
     world = gen.gen_world(r, kn)
     b = B(world, r)
     faulty = r.random() < 0.3
+    b.use_rev = not faulty and b.rr.random() < 0.4
     for pi in range(r.randint(1, 3)):
         b.proc(hs=r.choice([0, 1]))
         live = []
@@ -677,6 +718,7 @@ def gen_c13(r, knobs=None):
                     ns = r.sample(sorted(common), min(len(common), r.choice([1, 1, 2])))
                     others = [c for c in live if c not in members]
                     dele = r.random() < 0.3 and all(b.delete_ok(m, ns, others + [m]) for m in members)
+                    b.bump(members[0], ns, 0.5)
                     b.op(op='mforce', mid=mid, tasks=ns, names=ns, recompute=r.random() < 0.4 and not faulty, delete=dele)
             elif t < 0.93:
                 # forcing through one member chain (graph queries on a chain that holds shared task objects)
